@@ -12,6 +12,7 @@
 //     A id nops op...                        -> same answer format as Q for the AArch64 query_rw_info ("## v=" = a64 validator)
 //        op := v<arr>:<id> (arr in b8 b16 h2 h4 h8 s2 s4 d1 d2) | s<b|h|s|d|q>:<id> (scalar view) | e<b|h|s|d|q=4B|p=2H>:<id>:<index> (vector element) | x:<id> | w:<id>
 //              | m:<baseid>:<mode 0 [xN], 1 [xN, xM] post-index, 2 [xN], #off post-index, 3 [xN, #off]! pre-index, 4 [xN, #off], 5 [xN, xM], 6 [label]>[:<off, default 16>] | i<value>
+//     G id nops op...                        -> a64 query_features: "G <err> <output touched> ids..."
 //   c12_harness dumpa64         -> "AI <id> <name> <rw_info_index> <flags>", "AR <i> r0..r5" (inst_rw_info_table), "AK <name> <value>"
 #include <asmjit/core.h>
 #include <asmjit/x86.h>
@@ -390,6 +391,21 @@ int main(int argc, char** argv) {
     }
     else if (k == "A") {
       do_a64(ss);
+    }
+    else if (k == "G") {      // G id nops op... : a64 query_features -> "G <err> <was the output touched 0|1> ids..."
+      unsigned id, nops;
+      Operand_ ops[Globals::kMaxOpCount];
+      bool ok = bool(ss >> id >> nops) && nops <= Globals::kMaxOpCount;
+      for (unsigned i = 0; ok && i < nops; i++) { std::string t; ok = bool(ss >> t) && !t.empty() && parse_a64_op(t, ops[i]); }
+      if (!ok) { printf("G PARSE-ERROR\n"); continue; }
+      CpuFeatures f;
+      f.add(1);                      // sentinel: a real implementation resets the output first
+      Error err = InstAPI::query_features(Arch::kAArch64, BaseInst(id), ops, nops, &f);
+      std::string s2 = err == Error::kOk ? "G 0" : "G 1";
+      s2 += f.has(1) ? " 0" : " 1";
+      char buf[16];
+      for (uint32_t i = 2; i < 256; i++) if (f.has(i)) { snprintf(buf, sizeof buf, " %u", i); s2 += buf; }
+      puts(s2.c_str());
     }
     else if (k == "Q" || k == "F") {
       Cmd c;
